@@ -267,6 +267,22 @@ impl<F: Write + Seek> Allocator<F> {
     /// Adds a new sector to the FAT chain at the end of the file, and updates
     /// the FAT and DIFAT accordingly.
     fn append_fat_sector(&mut self) -> io::Result<()> {
+        let num_fat_entries = self.fat.len();
+        let num_difat_entries = self.difat.len();
+        let num_difat_sectors = self.difat_sector_ids.len();
+        let result = self.try_append_fat_sector();
+        if result.is_err() {
+            // Nothing of a half-added FAT sector may stay in memory, so that
+            // a retry adds it again, in full, at the same place (everything
+            // written to the file so far is then written again).
+            self.fat.truncate(num_fat_entries);
+            self.difat.truncate(num_difat_entries);
+            self.difat_sector_ids.truncate(num_difat_sectors);
+        }
+        result
+    }
+
+    fn try_append_fat_sector(&mut self) -> io::Result<()> {
         // Add a new FAT sector to the end of the file.
         let new_fat_sector_id = self.fat.len() as u32;
         self.sectors.init_sector(new_fat_sector_id, SectorInit::Fat)?;
